@@ -209,6 +209,19 @@ def check(prop, tier):
         tv["generated"] = sum(r["generated"] for r in results)
         tv["distinct"] = sum(r["distinct"] for r in results)
         shutil.rmtree(outdir, ignore_errors=True)
+    if prop in ("C01", "C03", "C04", "C18"):
+        # mined positions: random placements in which the outcome hangs on one or two moves (see record.rs: mine_chunk)
+        chunks3, events3 = (16, 150) if tier == "quick" else (48, 600)
+        outdir, files, rc, err = record_traces("mine", seed + 9, chunks3, events3)
+        if rc != 0:
+            violations.append({"property": prop, "kind": "library_crashed_while_mining", "detail": {"exit": rc, "stderr": err}})
+        results = validate_traces("TraceBoard.tla", "TraceBoard.cfg", files, prop)
+        violations += trace_violations(prop, results, "mined")
+        tv["chunks"] += len(results)
+        tv["events"] += sum(sum(1 for _ in open(f)) for f in files)
+        tv["generated"] += sum(r["generated"] for r in results)
+        tv["distinct"] += sum(r["distinct"] for r in results)
+        shutil.rmtree(outdir, ignore_errors=True)
     if prop == "C06":
         # the unvalidated builder renders and re-parses arbitrary states the same way (TraceBuild, BuilderState events)
         chunks2, events2 = (8, 900) if tier == "quick" else (32, 4000)
@@ -230,7 +243,8 @@ def check(prop, tier):
             raise C.ToolError("vacuous run: no %s among the explored states" % ", ".join(missing))
     exhaustive_sets = [n for (n, _, m) in sets if m["mode"] == "bfs"]
     coverage = {
-        "states": sum(m["tlc_distinct_states"] for (_, _, m) in sets) + tv["distinct"],
+        # simulation runs do not deduplicate: count the states they visited (= records printed), not the successors generated
+        "states": sum((m["records"] if m["mode"] == "sim" else m["tlc_distinct_states"]) for (_, _, m) in sets) + tv["distinct"],
         "transitions": sum(m["tlc_states_generated"] for (_, _, m) in sets) + tv["generated"],
         "traces_validated_against_impl": tv["chunks"],
         "trace_events_validated": tv["events"],
